@@ -29,7 +29,15 @@ pub struct ClientRig {
 
 impl ClientRig {
     pub fn new() -> ClientRig {
-        let exec = Exec::new(false);
+        Self::with_exec(Exec::new(false))
+    }
+
+    /// The same rig on the hook's virtual clock (for code that sleeps between attempts).
+    pub fn new_paused() -> ClientRig {
+        Self::with_exec(Exec::new_virtual_time())
+    }
+
+    fn with_exec(exec: Exec) -> ClientRig {
         let (net_tx, net_rx) = mpsc::channel(100_000);
         let (local_tx, local_rx) = mpsc::channel(100_000);
         let kp = rigs::fixtures::ed_keypair(50);
